@@ -412,10 +412,100 @@ def check_rename_save(seed):
     return None
 
 
+# ----------------------------------------------------------------------------- textures that name an image directly
+
+DIRECT_PROPS = {'phong': ['emission', 'ambient', 'diffuse', 'specular', 'reflective', 'transparent'],
+                'blinn': ['emission', 'ambient', 'diffuse', 'specular', 'reflective', 'transparent'],
+                'lambert': ['emission', 'ambient', 'diffuse', 'reflective', 'transparent'],
+                'constant': ['emission', 'reflective', 'transparent']}
+
+
+def direct_case(rng):
+    """effects WITHOUT sampler/surface parameters whose <texture> elements name an image id (an exporter habit the loader repairs by
+    making up the surface and the sampler); the same image is named by several properties and by several effects"""
+    images = ['im%d' % i for i in range(rng.randint(1, 3))]
+    effects = []
+    for e in range(rng.randint(1, 3)):
+        shader = rng.choice(sorted(DIRECT_PROPS))
+        props = []
+        for key in DIRECT_PROPS[shader]:
+            k = rng.random()
+            if k < 0.55:
+                props.append((key, 'tex', rng.choice(images)))
+            elif k < 0.8:
+                props.append((key, 'color', None))
+        effects.append(('fx%d' % e, shader, props, None))   # no bump map: a bump <texture> must name a sampler (anything else is a broken reference)
+    return images, effects
+
+
+def direct_doc(images, effects):
+    out = ['<?xml version="1.0" encoding="utf-8"?>\n<COLLADA xmlns="%s" version="1.4.1"><asset><created>2020-01-01T00:00:00</created>'
+           '<modified>2020-01-01T00:00:00</modified></asset><library_images>' % NS]
+    for im in images:
+        out.append('<image id="%s"><init_from>%s.png</init_from></image>' % (im, im))
+    out.append('</library_images><library_effects>')
+    for eid, shader, props, bump in effects:
+        out.append('<effect id="%s"><profile_COMMON><technique sid="common"><%s>' % (eid, shader))
+        for key, kind, im in props:
+            out.append('<%s>%s</%s>' % (key, '<texture texture="%s" texcoord="UV0"/>' % im if kind == 'tex' else '<color>0.5 0.25 0.125 1</color>', key))
+        out.append('</%s>' % shader)
+        if bump:
+            out.append('<extra><technique profile="FCOLLADA"><bump><texture texture="%s" texcoord="UV0"/></bump></technique></extra>' % bump)
+        out.append('</technique></profile_COMMON></effect>')
+    out.append('</library_effects></COLLADA>')
+    return ''.join(out).encode('utf-8')
+
+
+def check_direct(images, effects):
+    """one id names one parameter of an effect; every map naming an image holds THE sampler made up for it, whose surface holds THE image;
+    the same after write + reload"""
+    import collada
+    from collada import material
+    data = direct_doc(images, effects)
+    try:
+        d = collada.Collada(io.BytesIO(data))
+    except collada.DaeError as e:
+        return ('direct-load:' + type(e).__name__, 'effect whose textures name images directly does not load: %s' % str(e)[:150])
+
+    def look(d, when):
+        pr = identity_check(d)
+        if pr:
+            return ('direct-identity', '%s: %s (effects %s)' % (when, pr[:3], effects))
+        for eid, shader, props, bump in effects:
+            e = d.effects.get(eid)
+            if e is None:
+                return ('direct-effect-missing', '%s: effect %s is not in the library' % (when, eid))
+            seen = {}
+            for key, kind, im in props + ([('bumpmap', 'tex', bump)] if bump else []):
+                v = getattr(e, key, None)
+                if kind != 'tex':
+                    continue
+                if not isinstance(v, material.Map):
+                    if key == 'bumpmap':
+                        continue           # bump maps only through a sampler already present (documented loader behaviour is looked at in C05)
+                    return ('direct-not-a-map', '%s: %s of %s names image %s but is %r' % (when, key, eid, im, type(v).__name__))
+                if v.sampler.surface.image is not d.images.get(im):
+                    return ('direct-wrong-image', '%s: %s of %s names image %s but holds image %r' % (when, key, eid, im, getattr(v.sampler.surface.image, 'id', None)))
+                if im in seen and seen[im] is not v.sampler:
+                    return ('direct-two-samplers', '%s: two properties of %s name image %s but hold different sampler objects' % (when, eid, im))
+                seen[im] = v.sampler
+        return None
+    res = look(d, 'after load')
+    if res:
+        return res
+    out = io.BytesIO()
+    try:
+        d.write(out)
+        d2 = collada.Collada(io.BytesIO(out.getvalue()))
+    except Exception as e:
+        return ('direct-rewrite:' + type(e).__name__, 'write + reload of an effect whose textures name images directly raised: %s' % str(e)[:150])
+    return look(d2, 'after write and reload')
+
+
 def run(ctx):
     ctx.rule = ('instance_node graphs over 1-6 nodes (targets: any node incl. itself, missing ids; nested or direct; in <library_nodes> or as visual_scene roots; '
                 'definition order shuffled); docgen documents with permuted libraries / node definitions; nine kinds of dangling reference; renames of every referenced '
-                'library object before write; non-trivial = graph with at least one reference / document with at least one reference; distinct by content')
+                'library object before write; effects without sampler parameters whose textures name 1-3 images directly (shared between properties and effects, load and write+reload); non-trivial = graph with at least one reference / document with at least one reference; distinct by content')
     reported = set()
 
     def report(res, rep):
@@ -517,6 +607,16 @@ def run(ctx):
         ctx.case(dict(kind='skin', seed=seed))
         ctx.count('controller-references')
         report(res, dict(kind='skin', seed=seed))
+    for i in range(ctx.n(150, 5000)):
+        images, effects = direct_case(ctx.rng)
+        shared = any(len([1 for _, k, im in props if k == 'tex']) > len(set(im for _, k, im in props if k == 'tex')) for _, _, props, _ in effects)
+        ctx.case(dict(kind='direct', images=images, effects=effects), nontrivial=shared)
+        ctx.count('direct-texture:' + ('shared-image' if shared else 'plain'))
+        try:
+            res = check_direct(images, effects)
+        except Exception as e:
+            res = ('direct:check-raised:' + type(e).__name__, 'checking image-named textures raised %s: %s' % (type(e).__name__, str(e)[:150]))
+        report(res, dict(kind='direct', images=images, effects=effects))
     for i in range(ctx.n(40, 1500)):
         seed = ctx.rng.randrange(10 ** 9)
         ctx.case(dict(kind='rename', seed=seed))
@@ -557,6 +657,8 @@ def replay(ctx, rep):
         res = None if res == 'skip' else res
     elif k == 'rename':
         res = check_rename_save(rep['seed'])
+    elif k == 'direct':
+        res = check_direct(rep['images'], [(a, b, [tuple(x) for x in c], e) for a, b, c, e in rep['effects']])
     elif k in ('doc', 'perm'):
         data = docgen.generate(rep['seed'])
         d = collada.Collada(io.BytesIO(data))
